@@ -68,6 +68,12 @@ func errEnum(msg string) string {
 		return "missing-node"
 	case strings.Contains(msg, state.ErrMissingService.Error()):
 		return "missing-service"
+	case strings.Contains(msg, "cannot set MutualTLSMode=permissive"):
+		return "cfg-mtls"
+	case strings.Contains(msg, "config entry with that name already exists"):
+		return "cfg-gateway-clash"
+	case strings.Contains(msg, "does not permit advanced routing or splitting behavior"):
+		return "cfg-graph"
 	case strings.Contains(msg, "is reserved by node"):
 		return "node-name-conflict"
 	case strings.Contains(msg, "exactly one active CA"):
@@ -120,7 +126,7 @@ func txnStr(results structs.TxnResults, errs structs.TxnErrors) string {
 		case r.Service != nil:
 			t = append(t, fmt.Sprintf("svc;%s;%d;%d", hx.EncS(r.Service.ID), r.Service.CreateIndex, r.Service.ModifyIndex))
 		case r.Check != nil:
-			t = append(t, fmt.Sprintf("chk;%s;%s;%d;%d", hx.EncS(r.Check.Node), hx.EncS(string(r.Check.CheckID)), r.Check.CreateIndex, r.Check.ModifyIndex))
+			t = append(t, fmt.Sprintf("chk;%s;%s;%d;%d", hx.EncS(strings.ToLower(r.Check.Node)), hx.EncS(string(r.Check.CheckID)), r.Check.CreateIndex, r.Check.ModifyIndex))
 		default:
 			t = append(t, "unknown")
 		}
@@ -149,8 +155,14 @@ func sortedList(rows []string) string {
 	return hx.EncList(rows)
 }
 
-func cfgContent(e structs.ConfigEntry) (val, status string) {
+func cfgContent(e structs.ConfigEntry) (val, status string, flag bool) {
 	val = e.GetMeta()["v"]
+	switch x := e.(type) {
+	case *structs.ServiceConfigEntry:
+		flag = x.MutualTLSMode == structs.MutualTLSModePermissive
+	case *structs.MeshConfigEntry:
+		flag = x.AllowEnablingPermissiveMutualTLS
+	}
 	if c, ok := e.(structs.ControlledConfigEntry); ok {
 		if conds := c.GetStatus().Conditions; len(conds) > 0 {
 			status = conds[0].Status
@@ -168,11 +180,12 @@ func policyContent(p *structs.FeatureGatePolicy) string {
 	return strings.Join(keys, "+")
 }
 
-var modelledIndexKeys = map[string]bool{"kvs": true, "tombstones": true, "config-entries": true, "connect-ca-roots": true, "acl-tokens": true}
+// index-table entries maintained by code outside the model (gateway config entries)
+var unmodelledIndexKeys = map[string]bool{"gateway-services": true, "mesh-topology": true}
 
 // project prints the modelled projection of the store, read straight from memdb.
 func project(st *state.Store) string {
-	var kv, tomb, node, svc, chk, cfg, car, tok, idx []string
+	var kv, tomb, node, svc, chk, ksn, cfg, car, tok, idx []string
 	cac, ap, fgp, fgs := "-", "-", "-", "-"
 	for _, r := range st.VerifC10Rows("kvs") {
 		e := r.(*structs.DirEntry)
@@ -188,16 +201,20 @@ func project(st *state.Store) string {
 	}
 	for _, r := range st.VerifC10Rows("services") {
 		e := r.(*structs.ServiceNode)
-		svc = append(svc, fmt.Sprintf("%s;%s;%d;%d;%d", hx.EncS(e.Node), hx.EncS(e.ServiceID), e.ServicePort, e.CreateIndex, e.ModifyIndex))
+		svc = append(svc, fmt.Sprintf("%s;%s;%d;%d;%d", hx.EncS(strings.ToLower(e.Node)), hx.EncS(e.ServiceID), e.ServicePort, e.CreateIndex, e.ModifyIndex))
 	}
 	for _, r := range st.VerifC10Rows("checks") {
 		e := r.(*structs.HealthCheck)
-		chk = append(chk, fmt.Sprintf("%s;%s;%s;%s;%d;%d", hx.EncS(e.Node), hx.EncS(string(e.CheckID)), hx.EncS(e.ServiceID), hx.EncS(e.Output), e.CreateIndex, e.ModifyIndex))
+		chk = append(chk, fmt.Sprintf("%s;%s;%s;%s;%s;%d;%d", hx.EncS(strings.ToLower(e.Node)), hx.EncS(string(e.CheckID)), hx.EncS(e.ServiceID), hx.EncS(e.Output), hx.EncS(e.Status), e.CreateIndex, e.ModifyIndex))
+	}
+	for _, r := range st.VerifC10Rows("kind-service-names") {
+		e := r.(*state.KindServiceName)
+		ksn = append(ksn, hx.EncS(string(e.Kind)+e.Service.Name))
 	}
 	for _, r := range st.VerifC10Rows("config-entries") {
 		e := r.(structs.ConfigEntry)
-		v, s := cfgContent(e)
-		cfg = append(cfg, fmt.Sprintf("%s;%s;%s;%s;%d;%d", hx.EncS(e.GetKind()), hx.EncS(e.GetName()), hx.EncS(v), hx.EncS(s), e.GetRaftIndex().CreateIndex, e.GetRaftIndex().ModifyIndex))
+		v, s, fl := cfgContent(e)
+		cfg = append(cfg, fmt.Sprintf("%s;%s;%s;%s;%s;%d;%d", hx.EncS(e.GetKind()), hx.EncS(e.GetName()), hx.EncS(v), hx.EncS(s), hx.EncBool(fl), e.GetRaftIndex().CreateIndex, e.GetRaftIndex().ModifyIndex))
 	}
 	for _, r := range st.VerifC10Rows("connect-ca-config") {
 		e := r.(*structs.CAConfiguration)
@@ -225,13 +242,13 @@ func project(st *state.Store) string {
 	}
 	for _, r := range st.VerifC10Rows("index") {
 		e := r.(*state.IndexEntry)
-		if modelledIndexKeys[e.Key] {
+		if !unmodelledIndexKeys[e.Key] {
 			idx = append(idx, fmt.Sprintf("%s;%d", e.Key, e.Value))
 		}
 	}
 	return strings.Join([]string{
 		"kv=" + sortedList(kv), "tomb=" + sortedList(tomb), "node=" + sortedList(node), "svc=" + sortedList(svc),
-		"chk=" + sortedList(chk), "cfg=" + sortedList(cfg), "cac=" + cac, "car=" + sortedList(car), "ap=" + ap,
+		"chk=" + sortedList(chk), "ksn=" + sortedList(ksn), "cfg=" + sortedList(cfg), "cac=" + cac, "car=" + sortedList(car), "ap=" + ap,
 		"fgp=" + fgp, "fgs=" + fgs, "tok=" + sortedList(tok), "idx=" + sortedList(idx)}, " ")
 }
 
